@@ -623,7 +623,7 @@ func registerExterns(w *World) {
 	}
 	// ---- go-libaudit (dependency: assumed contracts)
 	w.ext("github.com/elastic/go-libaudit/v2.NewReassembler", "NewReassembler: (reassembler, err) with exactly one of them nil; the stream callback is retained", func(ex *Exec, st *State, c *callCtx) {
-		ex.assertAt(st, "NewReassembler", map[string]Val{"stream": c.args[2]})
+		ex.assertAt(st, "NewReassembler", map[string]Val{"maxInFlight": c.args[0], "timeout": c.args[1], "stream": c.args[2]})
 		r, e := oneOf(ex, st, c, "reass")
 		g := st.region("G!reassstream", arr("Int", "Int"))
 		st.setRegion("G!reassstream", arr("Int", "Int"), store(g, r, c.args[2].T))
